@@ -48,6 +48,14 @@ def handleNum (j : Json) : Except String Json := do
       ("cmp", Json.num (match F64.cmp x y with | .lt => -1 | .eq => 0 | .gt => 1))])
   | _, _ => pure (Json.mkObj [("err", Json.str "parse")])
 
+def handleHist (j : Json) : Except String Json := do
+  let opsJ ← (← getField j "ops").getArr?
+  let ops ← opsJ.toList.mapM opOfJson
+  let run (sdk : Sdk) : Json :=
+    let (_, outs) := Client.run { sdk := sdk } ops
+    Json.arr (outs.map outToJson).toArray
+  pure (Json.mkObj [("v1", run .v1), ("v2", run .v2)])
+
 def handle (line : String) : String :=
   match Json.parse line with
   | .error e => (Json.mkObj [("driverError", Json.str e)]).compress
@@ -59,6 +67,7 @@ def handle (line : String) : String :=
       | "match" => handleMatch j
       | "update" => handleUpdate j
       | "num" => handleNum j
+      | "hist" => handleHist j
       | k => throw s!"unknown kind {k}"
     match r with
     | .ok m => (Json.mkObj [("id", id), ("model", m)]).compress
